@@ -740,13 +740,14 @@ class HomeKitConnection:
 
         # FIXME: Should drop the connection if can't parse the event?
 
-        decoded = event.body.decode("utf-8")
-        if not decoded:
-            return
-
         try:
+            decoded = event.body.decode("utf-8")
+            if not decoded:
+                return
             parsed = hkjson.loads(decoded)
         except hkjson.JSON_DECODE_EXCEPTIONS:
+            # Neither a body that is not valid UTF-8 nor one that is not
+            # JSON must break the connection; ignore the event.
             return
 
         self.owner.event_received(parsed)
